@@ -148,3 +148,6 @@ def run(ctx):
     PANOCDIR.attach(ctx, extra_oracle=on_run)
     from vf.props import ZEROFPRDIR
     ZEROFPRDIR.attach(ctx, extra_oracle=on_run)
+    # the SHIPPED PANTR stack (NewtonTRDirection over SteihaugCG inside the model): refinement of the oracle model + whole runs
+    from vf.props import PANTRDIR
+    PANTRDIR.attach(ctx, extra_oracle=on_run)
